@@ -33,7 +33,7 @@ pub(crate) struct Worker<T: Sync + Send + 'static> {
     pub(crate) should_notify: Arc<AtomicBool>,
     pub(crate) was_canceled: bool,
     pub(crate) last_snapshot: u32,
-    notify: Arc<(dyn Fn() + Sync + Send)>,
+    pub(crate) notify: Arc<(dyn Fn() + Sync + Send)>,
     pub(crate) items: Arc<boxcar::Vec<T>>,
     in_flight: Vec<u32>,
 }
@@ -160,7 +160,9 @@ impl<T: Sync + Send + 'static> Worker<T> {
         }
     }
 
-    pub(crate) unsafe fn run(&mut self, pattern_status: pattern::Status, cleared: bool) {
+    /// Returns whether the run completed (was not canceled). The caller is responsible
+    /// for notifying *after* it has released the worker lock.
+    pub(crate) unsafe fn run(&mut self, pattern_status: pattern::Status, cleared: bool) -> bool {
         self.running = true;
         self.was_canceled = false;
         #[cfg(nucleo_verif)]
@@ -177,15 +179,8 @@ impl<T: Sync + Send + 'static> Worker<T> {
             self.reset_matches();
             self.process_new_items_trivial();
             #[cfg(nucleo_verif)]
-            crate::verif::yield_point("run.before_notify_read", 1);
-            if self.should_notify.load(atomic::Ordering::Relaxed) {
-                #[cfg(nucleo_verif)]
-                crate::verif::yield_point("run.before_notify", 1);
-                (self.notify)();
-            }
-            #[cfg(nucleo_verif)]
             crate::verif::yield_point("run.end", 1);
-            return;
+            return true;
         }
 
         if pattern_status == pattern::Status::Rescore {
@@ -263,16 +258,10 @@ impl<T: Sync + Send + 'static> Worker<T> {
         } else {
             self.matches
                 .truncate(self.matches.len() - take(unmatched.get_mut()) as usize);
-            #[cfg(nucleo_verif)]
-            crate::verif::yield_point("run.before_notify_read", 0);
-            if self.should_notify.load(atomic::Ordering::Relaxed) {
-                #[cfg(nucleo_verif)]
-                crate::verif::yield_point("run.before_notify", 0);
-                (self.notify)();
-            }
         }
         #[cfg(nucleo_verif)]
         crate::verif::yield_point("run.end", canceled as u64);
+        !canceled
     }
 
     fn reset_matches(&mut self) {
